@@ -12,7 +12,7 @@ From Coq Require Import Qabs Permutation.
 From LMBase Require Import IEEE.
 From Coq Require Import Reals.
 From Flocq Require Import Core BinarySingleNaN.
-From LMPwm Require Import GenComplement PwmModel PwmCheck PwmProofs PwmExact PwmF32 PwmCheckSound PwmF32Rescale PwmF32Mirror.
+From LMPwm Require Import GenComplement PwmModel PwmCheck PwmProofs PwmExact PwmF32 PwmCheckSound PwmF32Rescale PwmF32Mirror PwmF32Freq PwmF32Commute.
 Import ListNotations.
 Local Open Scope nat_scope.
 
@@ -191,6 +191,45 @@ Theorem C10_revcomp_to_freq_reassociation :
 Proof.
   intros T O p r Hp Hr.
   exact (rc_to_freq_row_any O dna_K dna_comp dna_comp_lt dna_comp_inv p r Hp Hr).
+Qed.
+
+(* binary32 (Flocq): the size of that re-association.  Cell k of rc(to_freq p r) and of
+   to_freq (rc p) (rc r) is the same count+pseudocount cell divided by two left-to-right
+   sums of the same K = 5 nonnegative cells; the sums are within (1 +- u)^4 of the exact
+   total, the quotients (when not subnormal) carry one more relative rounding each, so
+   they agree within 1e-6 relative: the extracted closeness check of the driver
+   (f32_close 0 1e-6) never rejects the binary32 model.  Subnormal quotients are excluded
+   here and skipped by the driver (fewer significant bits). *)
+Theorem C10_revcomp_commutes_to_freq_f32 :
+  forall (p : list F32.t) (r : list N) (k : nat),
+    length p = dna_K -> length r = dna_K -> k < dna_K ->
+    let cells := freq_cells F32ops p r in
+    let cells' := rc_row_spec F32.zero dna_K dna_comp cells in
+    Forall okcell cells ->
+    let s := fsum F32ops cells in let s' := fsum F32ops cells' in
+    is_finite s = true -> is_finite s' = true -> (0 < B2R s)%R -> (0 < B2R s')%R ->
+    let a := nth k (rc_row_spec F32.zero dna_K dna_comp (to_freq_row F32ops p r)) F32.zero in
+    let b := nth k (to_freq_row F32ops (rc_row_spec F32.zero dna_K dna_comp p)
+                                       (rc_row_spec 0%N dna_K dna_comp r)) F32.zero in
+    is_finite a = true -> is_finite b = true -> normal_or_zero a -> normal_or_zero b ->
+    f32_close 0 (1 # 1000000) a b = true.
+Proof.
+  intros p r k Hp Hr Hk cells cells' Hok s s' Fs Fs' Ps Ps'.
+  destruct (C10_revcomp_to_freq_reassociation F32.t F32ops p r Hp Hr) as [E1 [E2 HP]].
+  change (n_zero F32ops) with F32.zero in *. fold cells in E1, E2, HP. fold cells' in E1, E2, HP.
+  rewrite E1, E2.
+  assert (Hl : length cells' = dna_K) by (unfold cells'; apply rc_row_spec_length).
+  assert (Hn : forall t : F32.t,
+             nth k (map (fun x => n_div F32ops x t) cells') F32.zero = F32.div (nth k cells' F32.zero) t).
+  { intros t. rewrite (nth_indep _ F32.zero ((fun x => n_div F32ops x t) F32.zero))
+      by (rewrite map_length, Hl; exact Hk).
+    apply (map_nth (fun x => n_div F32ops x t)). }
+  rewrite !Hn. intros Fa Fb Na Nb.
+  assert (Hok' : Forall okcell cells') by (eapply Permutation_Forall; [apply Permutation_sym; exact HP | exact Hok]).
+  apply (commute_check_accepts cells cells' (nth k cells' F32.zero)); auto.
+  - apply Permutation_sym. exact HP.
+  - unfold cells, freq_cells. rewrite map2_length, Hp, Hr. apply Nat.eq_le_incl. reflexivity.
+  - rewrite Forall_forall in Hok'. apply (Hok' (nth k cells' F32.zero)). apply nth_In. rewrite Hl. exact Hk.
 Qed.
 
 (* what a [true] of the extracted C10 checkers states: the observed matrix IS the row
